@@ -13,35 +13,37 @@ import (
 
 // Prog holds the loaded packages of /repo (current working tree) and the contracts.
 type Prog struct {
-	fset      *token.FileSet
-	pkgs      []*packages.Package
-	reg       *SortReg
-	contracts map[string]*Contract
-	ghostFields map[string]map[string]string // struct type name -> ghost field -> go type text
-	funcs     map[string]*FuncInfo
-	funcByObj map[*types.Func]*FuncInfo
-	litInfo   map[*ast.FuncLit]*FuncInfo
-	typeIDs   map[string]int
-	strLits   map[string]string
-	modsets   map[string]map[string]bool // func key -> set of heap var names ("*" = everything)
-	warnings  []string
-	repoDir   string
-	chanSpecs map[string]*ChanSpec
-	sentinels map[string]bool
-	globalInits map[types.Object]ast.Expr
-	globalDecl  map[types.Object]bool
+	fset           *token.FileSet
+	pkgs           []*packages.Package
+	reg            *SortReg
+	contracts      map[string]*Contract
+	ghostFields    map[string]map[string]string // struct type name -> ghost field -> go type text
+	funcs          map[string]*FuncInfo
+	funcByObj      map[*types.Func]*FuncInfo
+	litInfo        map[*ast.FuncLit]*FuncInfo
+	typeIDs        map[string]int
+	strLits        map[string]string
+	modsets        map[string]map[string]bool // func key -> set of heap var names ("*" = everything)
+	warnings       []string
+	repoDir        string
+	chanSpecs      map[string]*ChanSpec
+	sentinels      map[string]bool
+	globalInits    map[types.Object]ast.Expr
+	globalDecl     map[types.Object]bool
 	globalAssigned map[types.Object]bool
-	implCache map[string][]types.Type
-	ghostFuns map[string]*ghostFun
-	heapVarTypes map[string]types.Type
-	autoContracts map[string]*Contract
-	boxedCache map[*FuncInfo]map[types.Object]bool
-	opts       lowerOpts
-	lemmas     []*Clause
-	axioms     []*Clause
-	ghostFunDecls []ghostFunDecl
-	guardedBy  map[string][]string // "Type.lockField" -> fields protected by that lock
-	lockInvs   map[string][]*LockInv // "Type.lockField" -> monitor invariant clauses
+	implCache      map[string][]types.Type
+	ghostFuns      map[string]*ghostFun
+	heapVarTypes   map[string]types.Type
+	autoContracts  map[string]*Contract
+	boxedCache     map[*FuncInfo]map[types.Object]bool
+	opts           lowerOpts
+	lemmas         []*Clause
+	axioms         []*Clause
+	ghostFunDecls  []ghostFunDecl
+	guardedBy      map[string][]string   // "Type.lockField" -> fields protected by that lock
+	lockInvs       map[string][]*LockInv // "Type.lockField" -> monitor invariant clauses
+	leanProofs     []leanProof
+	boundedChecks  []boundedCheck
 }
 
 type ghostFunDecl struct {
@@ -57,16 +59,16 @@ type lowerOpts struct {
 }
 
 type FuncInfo struct {
-	Key    string
-	Pkg    *packages.Package
-	Decl   *ast.FuncDecl
-	Lit    *ast.FuncLit
-	Obj    *types.Func
-	Sig    *types.Signature
-	Body   *ast.BlockStmt
-	Parent *FuncInfo
-	Lits   []*FuncInfo
-	Iface  *types.Interface // for interface methods (no body)
+	Key       string
+	Pkg       *packages.Package
+	Decl      *ast.FuncDecl
+	Lit       *ast.FuncLit
+	Obj       *types.Func
+	Sig       *types.Signature
+	Body      *ast.BlockStmt
+	Parent    *FuncInfo
+	Lits      []*FuncInfo
+	Iface     *types.Interface // for interface methods (no body)
 	IfaceName string
 }
 
@@ -136,6 +138,19 @@ func (p *Prog) indexPkg(pk *packages.Package) {
 			continue
 		}
 		for _, d := range f.Decls {
+			// function literals in the initialisers of package-level variables: <Var>#lit<k>
+			if gd, ok := d.(*ast.GenDecl); ok && gd.Tok == token.VAR {
+				for _, sp := range gd.Specs {
+					vs := sp.(*ast.ValueSpec)
+					for i, nm := range vs.Names {
+						if i < len(vs.Values) && nm.Name != "_" {
+							holder := &FuncInfo{Key: p.keyPrefix(pk) + nm.Name, Pkg: pk}
+							p.indexLits(holder, vs.Values[i])
+						}
+					}
+				}
+				continue
+			}
 			fd, ok := d.(*ast.FuncDecl)
 			if !ok || fd.Body == nil {
 				continue
